@@ -269,6 +269,19 @@ func VC_C09_v2i() {
 		o := V2I([]reflect.Value{ev}, []reflect.Type{vErrorT})
 		verifAssert(o[0] != nil, "C09.v2i.typed-nil-error-is-not-nil")
 	}
+	// nil results of slice, map and func type keep the declared type (only interface and
+	// pointer results become the untyped nil)
+	var ns []int
+	var nm map[string]int
+	var nf func(int) int
+	o3 := V2I([]reflect.Value{reflect.ValueOf(ns), reflect.ValueOf(nm), reflect.ValueOf(nf)},
+		[]reflect.Type{vTypeOf(ns), vTypeOf(nm), vTypeOf(nf)})
+	s3, okS := o3[0].([]int)
+	m3, okM := o3[1].(map[string]int)
+	f3, okF := o3[2].(func(int) int)
+	verifAssert(okS && s3 == nil, "C09.v2i.nil-slice-keeps-declared-type")
+	verifAssert(okM && m3 == nil, "C09.v2i.nil-map-keeps-declared-type")
+	verifAssert(okF && f3 == nil, "C09.v2i.nil-func-keeps-declared-type")
 	verifReached("C09.v2i")
 }
 
